@@ -242,6 +242,136 @@ fn dependency_position_case(index: u64, st: &mut Stats) {
     st.count("dependency_position_programs_order_independent");
 }
 
+/// Type-reference positions: a blob `TR_T` declared somewhere in the file is mentioned at exactly ONE position
+/// of a type expression (bare, element, parameter, result, argument of a generic user type or of std's Maybe, nested)
+/// written in one of four holders (blob field, enum payload, function parameter, annotated constant).
+/// A value that fits must be accepted with the same behaviour in six top-level orders; a value of another type
+/// at exactly that position must be rejected in all six - wherever `TR_T` and the generic `TR_G` are declared.
+/// (type expression, fitting value, value of another type)
+const TYPE_REFS: &[(&str, &str, &str)] = &[
+    ("TR_T", "TR_T { x: 1 }", "\"s\""),
+    ("[TR_T]", "[TR_T { x: 1 }]", "[\"s\"]"),
+    ("(int, TR_T)", "(1, TR_T { x: 1 })", "(1, \"s\")"),
+    ("fn TR_T -> int", "fn t: TR_T -> int do t.x end", "fn t: str -> int do 0 end"),
+    ("fn -> TR_T", "fn -> TR_T do TR_T { x: 1 } end", "fn -> str do \"s\" end"),
+    ("TR_G(TR_T)", "TR_G { g: TR_T { x: 1 } }", "TR_G { g: \"s\" }"),
+    ("Maybe(TR_T)", "Maybe.Just TR_T { x: 1 }", "Maybe.Just \"s\""),
+    ("TR_G(TR_G(TR_T))", "TR_G { g: TR_G { g: TR_T { x: 1 } } }", "TR_G { g: TR_G { g: 42 } }"),
+    ("[TR_G(TR_T)]", "[TR_G { g: TR_T { x: 1 } }]", "[TR_G { g: 42 }]"),
+    ("(int, Maybe(TR_T))", "(1, Maybe.Just TR_T { x: 1 })", "(1, Maybe.Just 42)"),
+    ("fn TR_G(TR_T) -> int", "fn t: TR_G(TR_T) -> int do t.g.x end", "fn t: TR_G(str) -> int do 0 end"),
+    ("TR_G(Maybe(TR_T))", "TR_G { g: Maybe.Just TR_T { x: 1 } }", "TR_G { g: Maybe.Just \"s\" }"),
+    ("TR_G([TR_T])", "TR_G { g: [TR_T { x: 1 }] }", "TR_G { g: [1] }"),
+];
+
+const TYPE_REF_HOLDERS: usize = 4;
+
+fn type_reference_case(index: u64, st: &mut Stats) {
+    let (ty, good, bad) = TYPE_REFS[index as usize % TYPE_REFS.len()];
+    let holder = (index as usize / TYPE_REFS.len()) % TYPE_REF_HOLDERS;
+    // (declaration mentioning the type, statement storing VALUE there)
+    let (hname, decl, user): (&str, String, &str) = match holder {
+        0 => ("blob field", format!("TR_H :: blob {{\n    n: int,\n    f: {},\n}}\n", ty), "trv :: TR_H { n: 1, f: VALUE }\n"),
+        1 => ("enum payload", format!("TR_H :: enum\n    V {},\n    N,\nend\n", ty), "trv :: TR_H.V VALUE\n"),
+        2 => ("function parameter", format!("tr_h :: fn a: {} -> int do\n    1\nend\n", ty), "trv :: tr_h(VALUE)\n"),
+        _ => ("annotated constant", "tr_unused :: 0\n".to_string(), "trv : TYPE : VALUE\n"),
+    };
+    let t = "TR_T :: blob {\n    x: int,\n}\n";
+    let g = "TR_G :: blob(*E) {\n    g: *E,\n}\n";
+    let s = "start :: fn do\n    zz :: trv\n    print(\"ran\")\nend\n";
+    let orders: [[usize; 5]; 6] = [[0, 1, 2, 3, 4], [2, 1, 0, 3, 4], [3, 2, 1, 0, 4], [4, 3, 2, 1, 0], [2, 3, 0, 1, 4], [1, 2, 3, 0, 4]];
+    let render = |value: &str, o: &[usize; 5]| {
+        let u = user.replace("VALUE", value).replace("TYPE", ty);
+        let items = [t, g, decl.as_str(), u.as_str(), s];
+        o.iter().map(|i| items[*i]).collect::<Vec<_>>().join("\n")
+    };
+    st.count("type_reference_programs");
+    st.count(&format!("type_reference:{} in {}", ty, hname));
+    let viol = |sig: String, value: &str, order: &[usize; 5], b: &Behaviour| Violation {
+        signature: sig,
+        hazard: None,
+        case: index,
+        detail: J::obj()
+            .with("type_expression", J::s(ty))
+            .with("holder", J::s(hname))
+            .with("order", J::s(format!("{:?} (0 = TR_T, 1 = TR_G, 2 = declaration mentioning the type, 3 = value stored there, 4 = start)", order)))
+            .with("program", J::s(render(value, order)))
+            .with("behaviour", J::s(format!("{:?}", b).chars().take(500).collect::<String>())),
+    };
+    let reference = behaviour(&sy::one_file(&render(good, &orders[0])), "main.sy");
+    match &reference {
+        Behaviour::Ran { outcome, monitor: None, prints } if outcome == "ok" && prints.len() == 1 => {}
+        other => {
+            st.violation(viol("order:type-reference-template-broken".into(), good, &orders[0], other));
+            return;
+        }
+    }
+    for o in &orders {
+        st.count("type_reference_orders_compiled");
+        let b = behaviour(&sy::one_file(&render(good, o)), "main.sy");
+        if b != reference {
+            st.violation(viol(format!("order:type-reference-differs:{}", hname), good, o, &b));
+            return;
+        }
+        match behaviour(&sy::one_file(&render(bad, o)), "main.sy") {
+            Behaviour::Rejected(_) => st.count("type_reference_mismatches_rejected"),
+            Behaviour::NoVerdict(_) => st.count("type_reference_no_verdict"),
+            other => {
+                st.violation(viol(format!("order:type-reference-mismatch-accepted:{}", hname), bad, o, &other));
+                return;
+            }
+        }
+    }
+    st.count("type_reference_programs_order_independent");
+}
+
+/// Entry-point family: the program's `start` is the main file's, whatever else is called `start` and wherever
+/// the main file's items stand. An imported library has its own `start`; the main file mentions it in one of
+/// 6 ways (not at all, from a helper function, from `start` itself, stored in a global, under an import alias,
+/// from-imported under another name); the main file's three items are tried in all 6 orders.
+/// (name, import line, [three top-level items of the main file], expected prints)
+const ENTRY_SHAPES: &[(&str, &str, [&str; 3], &[&str])] = &[
+    ("library start not mentioned", "use lib\n", ["k :: lib.greeting\n", "demo :: fn do\n    print(k)\nend\n", "start :: fn do\n    print(\"main\")\n    demo()\nend\n"], &["main", "hello"]),
+    ("called from a helper function", "use lib\n", ["demo :: fn do\n    lib.start()\nend\n", "k :: 1\n", "start :: fn do\n    print(\"main\")\n    demo()\nend\n"], &["main", "lib"]),
+    ("called from the main start", "use lib\n", ["k :: 1\n", "demo :: fn do\n    print(k)\nend\n", "start :: fn do\n    print(\"main\")\n    lib.start()\n    demo()\nend\n"], &["main", "lib", "1"]),
+    ("stored in a global", "use lib\n", ["held :: lib.start\n", "demo :: fn do\n    held()\nend\n", "start :: fn do\n    print(\"main\")\n    demo()\nend\n"], &["main", "lib"]),
+    ("through an import alias", "use lib as l\n", ["demo :: fn do\n    l.start()\nend\n", "k :: l.greeting\n", "start :: fn do\n    print(\"main\")\n    demo()\n    print(k)\nend\n"], &["main", "lib", "hello"]),
+    ("from-imported under another name", "from lib use start as lib_start\n", ["demo :: fn do\n    lib_start()\nend\n", "k :: 1\n", "start :: fn do\n    print(\"main\")\n    demo()\nend\n"], &["main", "lib"]),
+    ("never called, only mentioned in a global initialised before start", "use lib\n", ["held :: lib.start\n", "k :: 2\n", "start :: fn do\n    print(\"main\")\n    print(k)\nend\n"], &["main", "2"]),
+];
+
+fn entry_point_case(index: u64, st: &mut Stats) {
+    let (name, import, items, expect) = ENTRY_SHAPES[index as usize % ENTRY_SHAPES.len()];
+    let lib = "greeting :: \"hello\"\n\nstart :: fn do\n    print(\"lib\")\nend\n";
+    let orders: [[usize; 3]; 6] = [[0, 1, 2], [0, 2, 1], [1, 0, 2], [1, 2, 0], [2, 0, 1], [2, 1, 0]];
+    st.count("entry_point_programs");
+    for o in &orders {
+        let main = format!("{}\n{}", import, o.iter().map(|i| items[*i]).collect::<Vec<_>>().join("\n"));
+        let mut files = sy::Files::new();
+        files.insert("main.sy".into(), main.clone());
+        files.insert("lib.sy".into(), lib.to_string());
+        st.count("entry_point_orders_compiled");
+        let b = behaviour(&files, "main.sy");
+        let ok = matches!(&b, Behaviour::Ran { outcome, monitor: None, prints } if outcome == "ok" && prints.iter().map(|s| s.as_str()).collect::<Vec<_>>() == *expect);
+        if !ok {
+            st.violation(Violation {
+                signature: format!("order:entry-point:{}", name),
+                hazard: None,
+                case: index,
+                detail: J::obj()
+                    .with("shape", J::s(name))
+                    .with("order", J::s(format!("{:?}", o)))
+                    .with("main.sy", J::s(main))
+                    .with("lib.sy", J::s(lib))
+                    .with("expected_prints", J::Arr(expect.iter().map(|e| J::s(*e)).collect()))
+                    .with("behaviour", J::s(format!("{:?}", b).chars().take(500).collect::<String>())),
+            });
+            return;
+        }
+    }
+    st.count("entry_point_programs_order_independent");
+}
+
 impl Check for C11 {
     fn id(&self) -> &'static str {
         "C11"
@@ -252,6 +382,12 @@ impl Check for C11 {
     fn run_case(&self, ctx: &Ctx, index: u64, st: &mut Stats) {
         if (index as usize) < DEP_POSITIONS.len() {
             dependency_position_case(index, st);
+        }
+        if (index as usize) < TYPE_REFS.len() * TYPE_REF_HOLDERS {
+            type_reference_case(index, st);
+        }
+        if (index as usize) < ENTRY_SHAPES.len() {
+            entry_point_case(index, st);
         }
         let mut rng = Rng::for_case(ctx.seed, "C11", index);
         let p = augmented(&mut rng, 2);
@@ -868,6 +1004,28 @@ fn fixed_scenarios(st: &mut Stats) {
                 hazard: None,
                 case: 0,
                 detail: J::obj().with("expected", J::Arr(expect.iter().map(|s| J::s(s.clone())).collect())).with("behaviour", J::s(format!("{:?}", other).chars().take(800).collect::<String>())).with("files", J::Obj(f4.iter().map(|(k, v)| (k.clone(), J::s(v.clone()))).collect())),
+            }),
+        }
+    }
+    // a FIELD may be named like a namespace visible in the same file (module, alias, module in a folder):
+    // `value.field.member` goes through the value, `field.member` alone through the module
+    {
+        let mut f5 = Files::new();
+        f5.insert("config.sy".into(), "width := 80\n\nbump :: fn -> int do\n    width += 1\n    width\nend\n".into());
+        f5.insert("lib/tools.sy".into(), "width :: 7\n\nbump :: fn -> int do\n    70\nend\n".into());
+        f5.insert(
+            "main.sy".into(),
+            "use config\nuse lib/tools as t\nuse lib/tools\n\nCfg :: blob {\n    width: int,\n    bump: fn -> int,\n}\n\nApp :: blob {\n    config: Cfg,\n    t: Cfg,\n    tools: Cfg,\n    show: fn -> int,\n}\n\nmk :: fn w: int -> Cfg do\n    Cfg { width: w, bump: fn -> int do\n        w * 2\n    end }\nend\n\nstart :: fn do\n    app := App { config: mk(640), t: mk(5), tools: mk(9), show: fn -> int do\n        self.config.width + self.t.width\n    end }\n    print(app.config.width)\n    app.config.width = 800\n    print(app.config.width)\n    print(config.width)\n    print(app.config.bump())\n    print(config.bump())\n    print(app.t.width)\n    print(t.width)\n    print(app.tools.width)\n    print(tools.width)\n    print(app.t.bump())\n    print(t.bump())\n    app.t.width += 1\n    print(app.show())\n    print(config.width)\nend\n".into(),
+        );
+        let expect: Vec<String> = ["640", "800", "80", "1280", "81", "5", "7", "9", "7", "10", "70", "806", "81"].iter().map(|s| s.to_string()).collect();
+        st.count("fixed_scenarios_run");
+        match behaviour(&f5, "main.sy") {
+            Behaviour::Ran { prints, outcome, .. } if prints == expect && outcome == "ok" => st.count("fixed_scenarios_as_expected"),
+            other => st.violation(Violation {
+                signature: "modules:field-named-like-a-namespace".into(),
+                hazard: None,
+                case: 0,
+                detail: J::obj().with("expected", J::Arr(expect.iter().map(|s| J::s(s.clone())).collect())).with("behaviour", J::s(format!("{:?}", other).chars().take(800).collect::<String>())).with("files", J::Obj(f5.iter().map(|(k, v)| (k.clone(), J::s(v.clone()))).collect())),
             }),
         }
     }
